@@ -223,7 +223,23 @@ void do_join() {
   }
   if (!applies) { probe("join_clause_not_applicable"); return; }
   for (Sub* s : covered)
-    if (s->consumed != 1) fail("lost", "join", "join() returned but item %llu of producer %d, whose execute() had returned before join() was called, was not consumed", (unsigned long long)(s->v & 0xffffffffULL), s->producer);
+    if (s->consumed != 1) {
+      // Classify: is the unconsumed item queued behind a ticket whose producer
+      // has not published yet (head-of-line: the consumer's empty poll only looks
+      // at the head slot)? That case gets its own site.
+      // (raw reads: no scheduling point may separate join()'s last look at the
+      // event counter from this classification)
+      auto& bq = S->q._queue;
+      size_t head = *(volatile size_t*)&bq._next_pop_index, tail = *(volatile size_t*)&bq._next_push_index;
+      uint16_t head_version = *(volatile uint16_t*)&bq._slots.futex(head & bq._slot_mask)._futex._value;
+      bool head_unpublished = tail > head + 1 && head_version != bq.pop_version_for_index(head);
+      bool inflight = false;
+      for (Sub* o : S->subs) if (!o->done) inflight = true;
+      if (head_unpublished && inflight)
+        fail("lost", "join-head-of-line", "join() returned (event counter 0) but item %llu of producer %d, whose execute() had returned before join() was called, was not consumed: it is queued behind ticket %zu whose producer has not published yet (tickets up to %zu handed out), so the consumer's empty poll of the head slot let it exit",
+             (unsigned long long)(s->v & 0xffffffffULL), s->producer, head, tail);
+      fail("lost", "join", "join() returned but item %llu of producer %d, whose execute() had returned before join() was called, was not consumed", (unsigned long long)(s->v & 0xffffffffULL), s->producer);
+    }
   probe(covered.empty() ? "join_nothing_covered" : "join_covered_items");
 }
 
